@@ -159,6 +159,29 @@ func diff(a, b reflect.Value, path string, depth int) string {
 		if a.Len() != b.Len() {
 			return fmt.Sprintf("%s: len %d vs %d", path, a.Len(), b.Len())
 		}
+		if a.Type().Key().Kind() == reflect.Ptr {
+			// pointer keys: entries are matched by what the keys point at (copies have keys of their own)
+			used := map[int]bool{}
+			bkeys := b.MapKeys()
+			ita := a.MapRange()
+			for ita.Next() {
+				found := false
+				for k, bk := range bkeys {
+					if used[k] || diff(ita.Key(), bk, path+"[key]", depth+1) != "" {
+						continue
+					}
+					if d := diff(ita.Value(), b.MapIndex(bk), fmt.Sprintf("%s[*key]", path), depth+1); d != "" {
+						return d
+					}
+					used[k], found = true, true
+					break
+				}
+				if !found {
+					return fmt.Sprintf("%s: no key equal to %v", path, ita.Key().Elem())
+				}
+			}
+			return ""
+		}
 		it := a.MapRange()
 		for it.Next() {
 			bv := b.MapIndex(it.Key())
